@@ -81,7 +81,7 @@ Theorem C16_uri_options_uri_normal_partial : forall ip scheme h p path query,
   exists u, get_request_uri (opts_of d) = Ok u /\ set_request_uri ip u true = Ok d.
 Proof. exact uri_options_uri_normal. Qed.
 Print Assumptions C16_uri_options_uri_normal_partial.
-(* the full statement without the regular-host hypothesis is FALSE of the code (open finding): coap://a%2Fb/ *)
+(* the full statement without the regular-host hypothesis is FALSE of the code (OPEN finding C16:compose-host-not-escaped): coap://a%2Fb/ *)
 Theorem C16_compose_decompose_refuted :
   let u := coap ++ [58; 47; 47; 97; 37; 50; 70; 98; 47] in
   exists d u' d', set_request_uri no_ip u true = Ok d /\ get_request_uri (opts_of d) = Ok u' /\
@@ -95,9 +95,9 @@ Theorem C16_host_rules : forall ip uri flag s hi uh p q, set_request_uri ip uri 
   exists netloc path query hostname,
     urlsplit ip uri = Ok (s, netloc, path, query, []) /\ hostname_of netloc = Ok (Some hostname) /\
     match uh with
-    | Some h => flag = true /\ startswith netloc [91] = false /\ is_ipv4_literal hostname = Ok false /\
+    | Some h => flag = true /\ mem 91 netloc = false /\ is_ipv4_literal hostname = Ok false /\
                 (exists h', unquote hostname = Ok h' /\ h = translate ascii_lowercase h') /\ Forall (fun c => is_upper c = false) h
-    | None => flag = false \/ startswith netloc [91] = true \/ is_ipv4_literal hostname = Ok true
+    | None => flag = false \/ mem 91 netloc = true \/ is_ipv4_literal hostname = Ok true
     end.
 Proof. exact host_rules. Qed.
 Print Assumptions C16_host_rules.
@@ -106,24 +106,25 @@ Theorem C16_proxy_roundtrip : forall ip uri flag u, set_request_uri ip uri flag 
 Proof. exact proxy_roundtrip. Qed.
 Print Assumptions C16_proxy_roundtrip.
 
-(* ---- rejections: for EVERY string, set_request_uri fails only with the two documented errors — except for the two
-   stated situations (open findings), and [Unmodelled] marks inputs outside the model (non-ASCII network location) *)
-Theorem C16_rejects_documented_or_findings : forall ip uri flag e, set_request_uri ip uri flag = Raise e ->
-  e = MalformedUrlError \/ e = IncompleteUrlError \/ e = Unmodelled \/
-  (e = ValueError /\ exists scheme netloc path query hostname,
-      urlsplit ip uri = Ok (scheme, netloc, path, query, []) /\ hostname_of netloc = Ok (Some hostname) /\
-      ((mem 91 netloc = true /\ ip hostname = IpBad) \/
-       (startswith netloc [91] = false /\ is_ipv4_literal hostname = Raise ValueError))).
-Proof. exact rejects_documented_or_findings. Qed.
-Print Assumptions C16_rejects_documented_or_findings.
-Theorem C16_rejects_documented_refuted_ipvfuture :
-  set_request_uri no_ip (coap ++ [58; 47; 47; 91; 118; 49; 46; 120; 93; 47]) true = Raise ValueError.
-Proof. exact ipvfuture_bare_valueerror_refuted. Qed.
-Print Assumptions C16_rejects_documented_refuted_ipvfuture.
-Theorem C16_rejects_documented_refuted_digit_limit :
-  set_request_uri no_ip (coap ++ [58; 47; 47; 49; 46; 50; 46; 51; 46] ++ repeat 57 4301 ++ [47]) true = Raise ValueError.
-Proof. exact digit_limit_bare_valueerror_refuted. Qed.
-Print Assumptions C16_rejects_documented_refuted_digit_limit.
+(* ---- rejections: for EVERY string, set_request_uri fails only with the two documented errors; [Unmodelled] marks the inputs
+   outside the model (network location with non-ASCII characters) — full strength since the repairs 1c4d498 / 9bbf9d1 *)
+Theorem C16_rejects_documented : forall ip uri flag e, set_request_uri ip uri flag = Raise e ->
+  e = MalformedUrlError \/ e = IncompleteUrlError \/ e = Unmodelled.
+Proof. exact rejects_documented. Qed.
+Print Assumptions C16_rejects_documented.
+(* the inputs of the three repaired findings: coap://[v1.x]/, coap://1.2.3.<4301 digits>/, coap://@[::1]/ *)
+Theorem C16_repaired_ipvfuture :
+  set_request_uri no_ip (coap ++ [58; 47; 47; 91; 118; 49; 46; 120; 93; 47]) true = Raise MalformedUrlError.
+Proof. exact ipvfuture_now_malformed. Qed.
+Print Assumptions C16_repaired_ipvfuture.
+Theorem C16_repaired_digit_limit :
+  exists hi h, set_request_uri no_ip (coap ++ [58; 47; 47; 49; 46; 50; 46; 51; 46] ++ repeat 57 4301 ++ [47]) true = Ok (DRequest coap hi (Some h) [] []).
+Proof. exact digit_limit_now_a_name. Qed.
+Print Assumptions C16_repaired_digit_limit.
+Theorem C16_repaired_literal_after_userinfo :
+  set_request_uri only_loopback (coap ++ [58; 47; 47; 64; 91; 58; 58; 49; 93; 47]) true = Ok (DRequest coap [91; 58; 58; 49; 93] None [] []).
+Proof. exact literal_after_userinfo_not_uri_host. Qed.
+Print Assumptions C16_repaired_literal_after_userinfo.
 
 (* ---- host:port strings: join then split is the identity (up to the lower-casing hostportsplit performs) *)
 Theorem C16_hostport_join_split_name : forall h p, port_ok p -> h <> [] -> host_ascii_part h = true ->
